@@ -115,6 +115,11 @@ func DeepEqual(x, y interface{}) bool {
 		typy = typy.Elem()
 	}
 
+	// integers are compared exactly: a float64 cannot tell 2^53 from 2^53+1
+	if isIntKind(typx) && isIntKind(typy) {
+		return compareInts(typx, typy)
+	}
+
 	flx, okx := parseFloatIfOk(typx)
 	fly, oky := parseFloatIfOk(typy)
 	if okx && oky {
@@ -129,6 +134,35 @@ func DeepEqual(x, y interface{}) bool {
 	}
 
 	return reflect.DeepEqual(typx.Interface(), typy.Interface())
+}
+
+func isIntKind(val reflect.Value) bool {
+	switch val.Kind() {
+	case reflect.Int, reflect.Int8, reflect.Int16, reflect.Int32, reflect.Int64,
+		reflect.Uint, reflect.Uint8, reflect.Uint16, reflect.Uint32, reflect.Uint64, reflect.Uintptr:
+		return true
+	}
+	return false
+}
+
+func isUintKind(val reflect.Value) bool {
+	switch val.Kind() {
+	case reflect.Uint, reflect.Uint8, reflect.Uint16, reflect.Uint32, reflect.Uint64, reflect.Uintptr:
+		return true
+	}
+	return false
+}
+
+func compareInts(x, y reflect.Value) bool {
+	switch {
+	case isUintKind(x) && isUintKind(y):
+		return x.Uint() == y.Uint()
+	case isUintKind(x):
+		return y.Int() >= 0 && x.Uint() == uint64(y.Int())
+	case isUintKind(y):
+		return x.Int() >= 0 && y.Uint() == uint64(x.Int())
+	}
+	return x.Int() == y.Int()
 }
 
 func parseBytesIfOk(val reflect.Value) ([]byte, bool) {
